@@ -37,6 +37,8 @@
 #include <upipe/upipe.h>
 #include <upipe/urequest.h>
 #include <upipe/upump.h>
+#include <upipe/upump_blocker.h>
+#include <upipe/ueventfd.h>
 #include <upipe-modules/upipe_buffer.h>
 #include <upipe-modules/upipe_burst.h>
 #include <upipe-modules/upipe_convert_to_block.h>
@@ -85,6 +87,10 @@ enum {
     V_PAYLOAD,              /* a pass-through pipe changed the payload */
     V_LOST,                 /* an immediate pass-through pipe swallowed a buffer */
     V_GETTER,               /* a getter does not report what the setter stored */
+    V_INCOMPLETE,           /* a pipe that never drops kept or dropped a buffer although everything ran dry */
+    V_SRC_BLOCKED,          /* the source pump is still blocked after everything was delivered */
+    V_TWIN_SETTER,          /* a rejected setter changed what the pipe does next */
+    V_TWIN_GETTER,          /* a getter changed what the pipe does next */
 };
 
 static const char *class_name(int cls)
@@ -102,6 +108,10 @@ static const char *class_name(int cls)
     case V_PAYLOAD: return "payload_changed";
     case V_LOST: return "buffer_swallowed";
     case V_GETTER: return "getter_value";
+    case V_INCOMPLETE: return "buffer_never_delivered";
+    case V_SRC_BLOCKED: return "source_left_blocked";
+    case V_TWIN_SETTER: return "rejected_setter_changed_behaviour";
+    case V_TWIN_GETTER: return "getter_changed_behaviour";
     default: return NULL;
     }
 }
@@ -117,31 +127,34 @@ enum {
     OP_ATTACH,          /* a0 bit0 upump_mgr, bit1 uclock */
     OP_RELEASE,
     OP_OPTION,          /* a0 = which option of the pipe, a1 = value selector */
+    OP_SINK_BLOCK,      /* a0 = sink, a1: 1 = hold what arrives and block the pump it came from, 0 = let go */
+    OP_GETTER,          /* every getter the pipe answers */
     OP__N
 };
 static const char *op_name(int code)
 {
     static const char *const n[] = { "?", "flow_def", "input", "run", "advance", "flush", "set_output", "sink_mode",
-                                     "attach", "release", "option" };
+                                     "attach", "release", "option", "sink_block", "getter" };
     return code > 0 && code < OP__N ? n[code] : "?";
 }
 
-enum { CFG_PROP = 0, CFG_TYPE, CFG_POOL, CFG_FAULTS, CFG_PROVIDE };
+enum { CFG_PROP = 0, CFG_TYPE, CFG_POOL, CFG_FAULTS, CFG_PROVIDE, CFG_TWIN };
 
-enum { F_ORDER = 1, F_SAME_PAYLOAD = 2, F_IMMEDIATE = 4 };
+enum { F_ORDER = 1, F_SAME_PAYLOAD = 2, F_IMMEDIATE = 4,
+       F_COMPLETE = 8 /* documented never to drop: everything accepted comes out once the loop and the clock ran */ };
 struct ptype { const char *name; struct upipe_mgr *(*mgr_alloc)(void); unsigned flags; };
 static const struct ptype types[] = {
-    { "buffer", upipe_buffer_mgr_alloc, F_ORDER | F_SAME_PAYLOAD }, { "burst", upipe_burst_mgr_alloc, F_ORDER | F_SAME_PAYLOAD },
+    { "buffer", upipe_buffer_mgr_alloc, F_ORDER | F_SAME_PAYLOAD | F_COMPLETE }, { "burst", upipe_burst_mgr_alloc, F_ORDER | F_SAME_PAYLOAD | F_COMPLETE },
     { "convert_to_block", upipe_tblk_mgr_alloc, 0 }, { "dejitter", upipe_dejitter_mgr_alloc, F_ORDER | F_SAME_PAYLOAD },
-    { "delay", upipe_delay_mgr_alloc, F_ORDER | F_SAME_PAYLOAD | F_IMMEDIATE }, { "discard_blocking", upipe_disblo_mgr_alloc, F_ORDER | F_SAME_PAYLOAD },
-    { "dump", upipe_dump_mgr_alloc, F_ORDER | F_SAME_PAYLOAD | F_IMMEDIATE }, { "genaux", upipe_genaux_mgr_alloc, F_ORDER },
-    { "htons", upipe_htons_mgr_alloc, F_ORDER }, { "idem", upipe_idem_mgr_alloc, F_ORDER | F_SAME_PAYLOAD | F_IMMEDIATE },
-    { "match_attr", upipe_match_attr_mgr_alloc, F_ORDER | F_SAME_PAYLOAD }, { "multicat_probe", upipe_multicat_probe_mgr_alloc, F_ORDER | F_SAME_PAYLOAD | F_IMMEDIATE },
-    { "noclock", upipe_noclock_mgr_alloc, F_ORDER | F_SAME_PAYLOAD | F_IMMEDIATE }, { "nodemux", upipe_nodemux_mgr_alloc, F_ORDER | F_SAME_PAYLOAD },
-    { "null", upipe_null_mgr_alloc, 0 }, { "probe_uref", upipe_probe_uref_mgr_alloc, F_ORDER | F_SAME_PAYLOAD | F_IMMEDIATE },
-    { "rate_limit", upipe_rate_limit_mgr_alloc, F_ORDER | F_SAME_PAYLOAD }, { "setattr", upipe_setattr_mgr_alloc, F_ORDER | F_SAME_PAYLOAD | F_IMMEDIATE },
-    { "setflowdef", upipe_setflowdef_mgr_alloc, F_ORDER | F_SAME_PAYLOAD | F_IMMEDIATE }, { "setrap", upipe_setrap_mgr_alloc, F_ORDER | F_SAME_PAYLOAD | F_IMMEDIATE },
-    { "skip", upipe_skip_mgr_alloc, F_ORDER }, { "time_limit", upipe_time_limit_mgr_alloc, F_ORDER | F_SAME_PAYLOAD },
+    { "delay", upipe_delay_mgr_alloc, F_ORDER | F_SAME_PAYLOAD | F_IMMEDIATE | F_COMPLETE }, { "discard_blocking", upipe_disblo_mgr_alloc, F_ORDER | F_SAME_PAYLOAD },
+    { "dump", upipe_dump_mgr_alloc, F_ORDER | F_SAME_PAYLOAD | F_IMMEDIATE | F_COMPLETE }, { "genaux", upipe_genaux_mgr_alloc, F_ORDER },
+    { "htons", upipe_htons_mgr_alloc, F_ORDER | F_COMPLETE }, { "idem", upipe_idem_mgr_alloc, F_ORDER | F_SAME_PAYLOAD | F_IMMEDIATE | F_COMPLETE },
+    { "match_attr", upipe_match_attr_mgr_alloc, F_ORDER | F_SAME_PAYLOAD }, { "multicat_probe", upipe_multicat_probe_mgr_alloc, F_ORDER | F_SAME_PAYLOAD | F_IMMEDIATE | F_COMPLETE },
+    { "noclock", upipe_noclock_mgr_alloc, F_ORDER | F_SAME_PAYLOAD | F_IMMEDIATE | F_COMPLETE }, { "nodemux", upipe_nodemux_mgr_alloc, F_ORDER | F_SAME_PAYLOAD | F_COMPLETE },
+    { "null", upipe_null_mgr_alloc, 0 }, { "probe_uref", upipe_probe_uref_mgr_alloc, F_ORDER | F_SAME_PAYLOAD | F_IMMEDIATE | F_COMPLETE },
+    { "rate_limit", upipe_rate_limit_mgr_alloc, F_ORDER | F_SAME_PAYLOAD | F_COMPLETE }, { "setattr", upipe_setattr_mgr_alloc, F_ORDER | F_SAME_PAYLOAD | F_IMMEDIATE | F_COMPLETE },
+    { "setflowdef", upipe_setflowdef_mgr_alloc, F_ORDER | F_SAME_PAYLOAD | F_IMMEDIATE | F_COMPLETE }, { "setrap", upipe_setrap_mgr_alloc, F_ORDER | F_SAME_PAYLOAD | F_IMMEDIATE | F_COMPLETE },
+    { "skip", upipe_skip_mgr_alloc, F_ORDER | F_COMPLETE }, { "time_limit", upipe_time_limit_mgr_alloc, F_ORDER | F_SAME_PAYLOAD | F_COMPLETE },
     { "dtsdi", upipe_dtsdi_mgr_alloc, 0 }, { "ntsc_prepend", upipe_ntsc_prepend_mgr_alloc, 0 },
     { "aggregate", upipe_agg_mgr_alloc, 0 }, { "chunk_stream", upipe_chunk_stream_mgr_alloc, 0 },
     { "m3u_reader", upipe_m3u_reader_mgr_alloc, 0 }, { "rtp_h264", upipe_rtp_h264_mgr_alloc, 0 },
@@ -167,6 +180,66 @@ static int type;
 static bool sim_violation_suppressed;
 static bool provider_failed;
 static bool checking(void) { return !sim_violation_class() && !sim_violation_suppressed; }
+
+/* C20, second and third clause, without a model of any pipe: the history is
+ * executed again without its getters and without the setters the pipe
+ * rejected; what reaches the outputs (and the events thrown) must be the same.
+ * The loop runs ready watchers in allocation order and the clock is rewound, so
+ * that the executions differ in nothing else. */
+enum { MODE_PRIMARY = 0, MODE_TWIN, MODE_TWIN_KEEP_REJECTED, MODE__N };
+static int mode;
+static bool twin_run;                  /* this history is executed more than once */
+static bool rejected[SIM_MAX_OPS];
+static int cur_op;
+#define MAXTRACE 2048
+static uint64_t trace[MODE__N][MAXTRACE];
+static unsigned ntrace[MODE__N];
+static char trace_what[MODE__N][MAXTRACE];
+static void trace_add(char what, uint64_t v)
+{
+    if (!twin_run)
+        return;
+    if (ntrace[mode] < MAXTRACE) {
+        trace_what[mode][ntrace[mode]] = what;
+        trace[mode][ntrace[mode]] = v;
+    }
+    ntrace[mode]++;
+}
+/* events thrown while a getter or a rejected setter runs are part of that
+ * call, not of what the pipe does next */
+static void trace_forget_events_since(unsigned n0)
+{
+    if (!twin_run || ntrace[mode] > MAXTRACE)
+        return;
+    unsigned w = n0;
+    for (unsigned i = n0; i < ntrace[mode]; i++)
+        if (trace_what[mode][i] != 'e') {
+            trace_what[mode][w] = trace_what[mode][i];
+            trace[mode][w++] = trace[mode][i];
+        }
+    ntrace[mode] = w;
+}
+static uint64_t dict_hash(struct uref *uref)
+{
+    uint64_t h = 7;
+    if (uref == NULL || uref->udict == NULL)
+        return h;
+    const char *name = NULL;
+    enum udict_type t = UDICT_TYPE_END;
+    while (ubase_check(udict_iterate(uref->udict, &name, &t)) && t != UDICT_TYPE_END) {
+        const uint8_t *v = NULL;
+        size_t size = 0;
+        uint64_t e = sim_mix((uint64_t)t, 99);
+        if (name != NULL)
+            for (const char *c = name; *c; c++)
+                e = sim_mix(e, (uint64_t)(uint8_t)*c);
+        if (ubase_check(udict_get(uref->udict, name, t, &size, &v)) && v != NULL)
+            for (size_t i = 0; i < size; i++)
+                e = sim_mix(e, v[i]);
+        h += e;         /* (order of attributes in the storage is not behaviour) */
+    }
+    return h;
+}
 
 /* what went in (C05 clauses for the pipes flagged in the table) */
 #define MAXSEQ 256
@@ -213,7 +286,34 @@ static struct sink {
     bool refuse;
     bool accepted;              /* accepted a flow definition since it was plugged */
     unsigned inputs, flow_defs, refused;
+    bool blocking;              /* holds what arrives and blocks the pump it came from */
+    struct uchain held, blockers;
 } sinks[NSINK];
+
+/* the pump the harness names as the source of its buffers (a timer that never
+ * fires): pipes that hold input block it, and must let it go again */
+static struct upump *src_pump;
+static struct ueventfd src_fd;
+static void src_pump_cb(struct upump *upump) { (void)upump; }
+static bool complete_tainted;          /* something happened that legitimately drops or keeps buffers */
+static bool sink_blocked_ever;
+static uint64_t buffer_max_size, largest_input;
+
+static void sink_blocker_cb(struct upump_blocker *blocker)
+{
+    /* the blocked pump is going away */
+    ulist_delete(upump_blocker_to_uchain(blocker));
+    upump_blocker_free(blocker);
+}
+static void sink_let_go(struct sink *s)
+{
+    struct uchain *uchain;
+    s->blocking = false;
+    while ((uchain = ulist_pop(&s->blockers)) != NULL)
+        upump_blocker_free(upump_blocker_from_uchain(uchain));
+    while ((uchain = ulist_pop(&s->held)) != NULL)
+        uref_free(uref_from_uchain(uchain));
+}
 
 static void noop_free(struct urefcount *r) { (void)r; }
 
@@ -239,6 +339,8 @@ static int catch(struct uprobe *uprobe, struct upipe *upipe, int event, va_list 
     if (upipe != ut && upipe != ut_alloc)
         return UBASE_ERR_UNHANDLED;     /* inner pipes of a bin: not ours to judge */
     ut_events++;
+    if (event != UPROBE_PROVIDE_REQUEST)
+        trace_add('e', (uint64_t)event);
     if (!ut_first_event_seen) {
         ut_first_event_seen = true;
         if (event != UPROBE_READY && checking())
@@ -290,6 +392,13 @@ static void sink_input(struct upipe *upipe, struct uref *uref, struct upump **up
     struct sink *s = container_of(upipe, struct sink, upipe);
     s->inputs++;
     sim_ev("sink_input", (uint64_t)(s - sinks), 0);
+    if (twin_run) {
+        unsigned tsize = 0;
+        uint64_t th = payload_hash(uref, &tsize);
+        uint64_t dates = sim_mix(sim_mix(uref->flags, uref->date_sys), sim_mix(uref->date_prog, uref->date_orig));
+        dates = sim_mix(dates, sim_mix(sim_mix(uref->dts_pts_delay, uref->cr_dts_delay), sim_mix(uref->rap_cr_delay, uref->priv)));
+        trace_add('d', sim_mix(sim_mix((uint64_t)(s - sinks), tsize), sim_mix(th, sim_mix(dict_hash(uref), dates))));
+    }
     if (checking()) {
         if (ut_dead)
             sim_violation(V_AFTER_DEAD, "%s sends a buffer to its output after dead", types[type].name);
@@ -318,6 +427,19 @@ static void sink_input(struct upipe *upipe, struct uref *uref, struct upump **up
         sent_rec[sq].arrived = true;
         any_arrived = true;
         last_arrived_seq = sq;
+    } else if (sq < MAXSEQ)
+        sent_rec[sq].arrived = true;
+    if (s->blocking) {
+        /* what a sink does that cannot take more for now */
+        ulist_add(&s->held, uref_to_uchain(uref));
+        if (upump_p != NULL && *upump_p != NULL && upump_blocker_find(&s->blockers, *upump_p) == NULL) {
+            struct upump_blocker *b = upump_blocker_alloc(*upump_p, sink_blocker_cb, s);
+            if (b != NULL) {
+                ulist_add(&s->blockers, upump_blocker_to_uchain(b));
+                SIM_PROBE("sweep_sink_blocked_a_pump");
+            }
+        }
+        return;
     }
     uref_free(uref);
 }
@@ -327,6 +449,12 @@ static int sink_control(struct upipe *upipe, int command, va_list args)
     struct sink *s = container_of(upipe, struct sink, upipe);
     switch (command) {
     case UPIPE_SET_FLOW_DEF:
+        if (twin_run) {
+            va_list copy;
+            va_copy(copy, args);
+            trace_add('f', sim_mix((uint64_t)(s - sinks), dict_hash(va_arg(copy, struct uref *))));
+            va_end(copy);
+        }
         if (ut_dead && checking())
             sim_violation(V_AFTER_DEAD, "%s sends a flow definition to its output after dead", types[type].name);
         s->flow_defs++;
@@ -373,6 +501,7 @@ static void env_setup(void)
     uref_mgr = uref_std_mgr_alloc(depth[pool], udict_mgr, 0);
     ubuf_mgr = ubuf_block_mem_mgr_alloc(depth[pool], depth[pool], umem, 0, 0, 0, 0);
     upump_mgr = upump_sim_mgr_alloc(depth[pool], depth[pool]);
+    upump_sim_mgr_set_fifo(upump_mgr, twin_run);
     uclock = uclock_sim_alloc();
     uprobe_init(&root, catch, NULL);
     urefcount_init(&root_refcount, noop_free);
@@ -392,7 +521,19 @@ static void env_setup(void)
         upipe_init(&sinks[i].upipe, &sink_mgr, uprobe_use(chain));
         urefcount_init(&sinks[i].refcount, noop_free);
         sinks[i].upipe.refcount = &sinks[i].refcount;
+        ulist_init(&sinks[i].held);
+        ulist_init(&sinks[i].blockers);
     }
+    /* a watcher on a descriptor nobody writes to: never dispatched, does not
+     * keep the loop alive, can be blocked */
+    src_pump = ueventfd_init(&src_fd, false) ? ueventfd_upump_alloc(&src_fd, upump_mgr, src_pump_cb, NULL, NULL) : NULL;
+    if (src_pump != NULL) {
+        upump_set_status(src_pump, false);
+        upump_start(src_pump);
+    }
+    complete_tainted = sink_blocked_ever = false;
+    largest_input = 0;
+    buffer_max_size = 0;        /* (upipe_buffer's default: nothing fits until the application says how much) */
     ut = NULL;
     ut_ready = ut_dead = ut_events = ut_fatal = ut_error = 0;
     ut_first_event_seen = false;
@@ -403,6 +544,15 @@ static void env_setup(void)
 
 static void env_teardown(void)
 {
+    for (int i = 0; i < NSINK; i++)
+        sink_let_go(&sinks[i]);
+    if (src_pump != NULL) {
+        /* (a blocker left by a dead pipe is called back from here) */
+        upump_stop(src_pump);
+        upump_free(src_pump);
+        src_pump = NULL;
+        ueventfd_clean(&src_fd);
+    }
     for (int i = 0; i < NSINK; i++) {
         if (checking() && !urefcount_single(&sinks[i].refcount))
             sim_violation(V_LEAK, "%s: sink %d is still referenced after the pipe was released", types[type].name, i);
@@ -449,7 +599,7 @@ static void env_teardown(void)
  * path: DESIGN.md 2.3): no allocation fault while they run */
 static bool faults_allowed(void)
 {
-    return ((uint64_t)plan->cfg[CFG_FAULTS] & 1) && strcmp(types[type].name, "m3u_reader");
+    return ((uint64_t)plan->cfg[CFG_FAULTS] & 1) && strcmp(types[type].name, "m3u_reader") && !twin_run;
 }
 static void arm(const struct sim_op *op)
 {
@@ -474,6 +624,90 @@ static void disarm(const struct sim_op *op)
 static uint64_t seq;
 static bool flow_def_accepted;
 
+static int genaux_get_a(struct uref *uref, uint64_t *p) { return uref_clock_get_cr_sys(uref, p); }
+static int genaux_get_b(struct uref *uref, uint64_t *p) { return uref_clock_get_pts_sys(uref, p); }
+
+/* option w of the pipe type under test: set (*v is what gets set, adjusted to
+ * the option's domain) or get (*v receives the value). *what stays NULL when the
+ * type has no such option. */
+static int option_access(int w, bool set, uint64_t *v, const char **what)
+{
+    const char *name = types[type].name;
+    *what = NULL;
+    if (!strcmp(name, "buffer")) {
+        if (w == 0) { *what = "max_size"; return set ? upipe_buffer_set_max_size(ut, *v) : upipe_buffer_get_max_size(ut, v); }
+        if (w == 1) { *what = "low_limit"; return set ? upipe_buffer_set_low_limit(ut, *v) : upipe_buffer_get_low_limit(ut, v); }
+        *what = "high_limit";
+        return set ? upipe_buffer_set_high_limit(ut, *v) : upipe_buffer_get_high_limit(ut, v);
+    }
+    if (!strcmp(name, "time_limit")) {
+        *what = "limit";
+        return set ? upipe_time_limit_set_limit(ut, *v) : upipe_time_limit_get_limit(ut, v);
+    }
+    if (!strcmp(name, "rate_limit")) {
+        if (w == 0) { *what = "limit"; return set ? upipe_rate_limit_set_limit(ut, *v) : upipe_rate_limit_get_limit(ut, v); }
+        *what = "duration";
+        if (set && *v == 0)
+            *v = 1;
+        return set ? upipe_rate_limit_set_duration(ut, *v) : upipe_rate_limit_get_duration(ut, v);
+    }
+    if (!strcmp(name, "skip")) {
+        *what = "offset";
+        if (set) {
+            *v %= 256;
+            return upipe_skip_set_offset(ut, (size_t)*v);
+        }
+        size_t o = 0;
+        int err = upipe_skip_get_offset(ut, &o);
+        *v = o;
+        return err;
+    }
+    if (!strcmp(name, "delay")) {
+        *what = "delay";
+        if (set)
+            return upipe_delay_set_delay(ut, (int64_t)*v);
+        int64_t d = 0;
+        int err = upipe_delay_get_delay(ut, &d);
+        *v = (uint64_t)d;
+        return err;
+    }
+    if (!strcmp(name, "setrap")) {
+        *what = "rap";
+        return set ? upipe_setrap_set_rap(ut, *v) : upipe_setrap_get_rap(ut, v);
+    }
+    if (!strcmp(name, "aggregate")) {
+        *what = "output_size";
+        if (set)
+            return upipe_set_output_size(ut, (unsigned int)*v);
+        unsigned int u = 0;
+        int err = upipe_get_output_size(ut, &u);
+        *v = u;
+        return err;
+    }
+    if (!strcmp(name, "chunk_stream")) {
+        unsigned int align = w == 0 ? 1 : 4;
+        *what = w == 0 ? "mtu (alignment 1)" : "mtu (alignment 4)";
+        if (set)
+            return upipe_chunk_stream_set_mtu(ut, (unsigned int)*v, align);
+        unsigned int m = 0, a = 0;
+        int err = upipe_chunk_stream_get_mtu(ut, &m, &a);
+        *v = m;
+        return err;
+    }
+    if (!strcmp(name, "genaux")) {
+        *what = "getattr";
+        if (set) {
+            *v &= 1;
+            return upipe_genaux_set_getattr(ut, *v ? genaux_get_b : genaux_get_a);
+        }
+        int (*g)(struct uref *, uint64_t *) = NULL;
+        int err = upipe_genaux_get_getattr(ut, &g);
+        *v = g == genaux_get_b ? 1 : g == genaux_get_a ? 0 : 2;
+        return err;
+    }
+    return UBASE_ERR_UNHANDLED;
+}
+
 static void do_op(const struct sim_op *op)
 {
     sim_ev(op_name(op->code), (uint64_t)op->a[0], (uint64_t)op->a[1]);
@@ -490,11 +724,22 @@ static void do_op(const struct sim_op *op)
         if (x & 1) uref_block_flow_set_octetrate(fd, 1000 + x % 100000);
         if (x & 2) uref_clock_set_latency(fd, x % 27000000);
         if (x & 4) uref_flow_set_id(fd, x % 100);
-        if (x & 8) uref_block_flow_set_size(fd, 188);
+        static const uint64_t fsizes[] = { 188, 16, 1500, 70 };
+        if (x & 8) uref_block_flow_set_size(fd, fsizes[(x >> 4) & 3]);
+        if (mode == MODE_TWIN && rejected[cur_op]) {
+            /* the pipe said no to this one: the twin is not even asked */
+            uref_free(fd);
+            break;
+        }
+        unsigned n0 = ntrace[mode];
         arm(op);
         int err = upipe_set_flow_def(ut, fd);
         disarm(op);
         uref_free(fd);
+        if (mode == MODE_PRIMARY)
+            rejected[cur_op] = !ubase_check(err);
+        if (!ubase_check(err))
+            trace_forget_events_since(n0);
         if (held_while_waiting)
             flow_defs_behind_held++;
         if (ubase_check(err)) {
@@ -550,8 +795,12 @@ static void do_op(const struct sim_op *op)
             seq++;
             if (provider_failed)
                 held_while_waiting = true;
+            if (sent_rec[my].size > largest_input)
+                largest_input = sent_rec[my].size;
+            if (!strcmp(types[type].name, "buffer") && sent_rec[my].size > buffer_max_size)
+                complete_tainted = true;        /* (never fits: kept for ever, by design) */
             arm(op);
-            upipe_input(ut, uref, NULL);
+            upipe_input(ut, uref, ((uint64_t)op->a[2] & 4) && src_pump != NULL ? &src_pump : NULL);
             disarm(op);
             /* an immediate pass-through pipe with a consenting output has
              * nothing to keep */
@@ -570,6 +819,7 @@ static void do_op(const struct sim_op *op)
         sim_advance(1 + (uint64_t)op->a[0] % 27000000);
         break;
     case OP_FLUSH:
+        complete_tainted = true;
         upipe_flush(ut);
         break;
     case OP_SET_OUTPUT: {
@@ -577,6 +827,7 @@ static void do_op(const struct sim_op *op)
         struct upipe *out = w == 0 ? NULL : &sinks[w - 1].upipe;
         if (out != NULL)
             sinks[w - 1].accepted = false;     /* has to negotiate again */
+        complete_tainted = true;
         upipe_set_output(ut, out);
         cur_out = out;
         break;
@@ -586,7 +837,21 @@ static void do_op(const struct sim_op *op)
         if ((uint64_t)op->a[1] & 1)
             any_refusal = true;
         break;
+    case OP_SINK_BLOCK: {
+        struct sink *sk = &sinks[(uint64_t)op->a[0] % NSINK];
+        if ((uint64_t)op->a[1] & 1) {
+            sk->blocking = true;
+            sink_blocked_ever = true;
+        } else
+            sink_let_go(sk);
+        break;
+    }
     case OP_ATTACH:
+        /* (upipe_buffer drops its idler on a new event loop and only makes
+         * another one when the next buffer comes in: what it kept waits for
+         * that. Kept, not lost - the property does not say when; not judged) */
+        if (((uint64_t)op->a[0] & 1) && seq && !strcmp(types[type].name, "buffer"))
+            complete_tainted = true;
         if ((uint64_t)op->a[0] & 1) upipe_attach_upump_mgr(ut);
         if ((uint64_t)op->a[0] & 2) upipe_attach_uclock(ut);
         break;
@@ -594,35 +859,65 @@ static void do_op(const struct sim_op *op)
         /* the options these pipes have, with their getters (C20's first
          * clause rides along: what was accepted must read back) */
         static const uint64_t vals[] = { 0, 1, 8, 64, 200, 1000, 27000, 27000000 };
-        uint64_t v = vals[(uint64_t)op->a[1] % 8], got = ~v;
-        int w = (int)((uint64_t)op->a[0] % 3), err = UBASE_ERR_UNHANDLED, gerr = UBASE_ERR_NONE;
-        const char *name = types[type].name, *what = "?";
-        if (!strcmp(name, "buffer")) {
-            if (w == 0) { what = "max_size"; err = upipe_buffer_set_max_size(ut, v); gerr = upipe_buffer_get_max_size(ut, &got); }
-            else if (w == 1) { what = "low_limit"; err = upipe_buffer_set_low_limit(ut, v); gerr = upipe_buffer_get_low_limit(ut, &got); }
-            else { what = "high_limit"; err = upipe_buffer_set_high_limit(ut, v); gerr = upipe_buffer_get_high_limit(ut, &got); }
-        } else if (!strcmp(name, "time_limit")) {
-            what = "limit"; err = upipe_time_limit_set_limit(ut, v); gerr = upipe_time_limit_get_limit(ut, &got);
-        } else if (!strcmp(name, "rate_limit")) {
-            if (w == 0) { what = "limit"; err = upipe_rate_limit_set_limit(ut, v); gerr = upipe_rate_limit_get_limit(ut, &got); }
-            else { what = "duration"; err = upipe_rate_limit_set_duration(ut, v ? v : 1); v = v ? v : 1; gerr = upipe_rate_limit_get_duration(ut, &got); }
-        } else if (!strcmp(name, "skip")) {
-            size_t o = 0;
-            what = "offset"; err = upipe_skip_set_offset(ut, (size_t)(v % 256)); v %= 256; gerr = upipe_skip_get_offset(ut, &o); got = o;
-        } else if (!strcmp(name, "delay")) {
-            int64_t d = 0;
-            what = "delay"; err = upipe_delay_set_delay(ut, (int64_t)v); gerr = upipe_delay_get_delay(ut, &d); got = (uint64_t)d;
-        } else if (!strcmp(name, "setrap")) {
-            what = "rap"; err = upipe_setrap_set_rap(ut, v); gerr = upipe_setrap_get_rap(ut, &got);
-        } else
+        uint64_t v = vals[(uint64_t)op->a[1] % 8], got;
+        int w = (int)((uint64_t)op->a[0] % 3);
+        const char *name = types[type].name, *what = NULL;
+        if (mode == MODE_TWIN && rejected[cur_op])
             break;
+        unsigned n0 = ntrace[mode];
+        int err = option_access(w, true, &v, &what);
+        if (what == NULL)
+            break;
+        if (mode == MODE_PRIMARY)
+            rejected[cur_op] = !ubase_check(err);
+        if (!ubase_check(err))
+            trace_forget_events_since(n0);
+        if (ubase_check(err) && !strcmp(name, "buffer") && w == 0) {
+            buffer_max_size = v;
+            if (v < largest_input)
+                complete_tainted = true;
+        }
         SIM_PROBE("sweep_option_set");
+        if (!ubase_check(err))
+            SIM_PROBE("sweep_option_rejected");
+        if (mode != MODE_PRIMARY)
+            break;              /* (the read-back is a getter) */
+        got = ~v;
+        n0 = ntrace[mode];
+        int gerr = option_access(w, false, &got, &what);
+        trace_forget_events_since(n0);
         if (ubase_check(err) && checking() && (!ubase_check(gerr) || got != v))
             sim_violation(V_GETTER, "%s: %s set to %" PRIu64 " (accepted), the getter %s %" PRIu64, name, what, v,
                           ubase_check(gerr) ? "reports" : "fails; it left", got);
         break;
     }
+    case OP_GETTER: {
+        if (mode != MODE_PRIMARY)
+            break;
+        SIM_PROBE("sweep_getters_called");
+        unsigned n0 = ntrace[mode];
+        struct uref *fd = NULL;
+        struct upipe *out = NULL;
+        unsigned int usize = 0, ulen = 0;
+        const char *str = NULL;
+        upipe_get_flow_def(ut, &fd);
+        upipe_get_output(ut, &out);
+        upipe_get_output_size(ut, &usize);
+        upipe_get_max_length(ut, &ulen);
+        upipe_get_uri(ut, &str);
+        upipe_get_option(ut, "x", &str);
+        if (checking() && out != cur_out && out != NULL && cur_out != NULL)
+            sim_violation(V_GETTER, "%s: get_output does not report the output that was set", types[type].name);
+        for (int w = 0; w < 3; w++) {
+            uint64_t got = 0;
+            const char *what = NULL;
+            option_access(w, false, &got, &what);
+        }
+        trace_forget_events_since(n0);
+        break;
+    }
     case OP_RELEASE: {
+        complete_tainted = true;
         struct upipe *p = ut;
         ut = NULL;
         upipe_release(p);
@@ -633,10 +928,45 @@ static void do_op(const struct sim_op *op)
     }
 }
 
-static void run(const char *pr, const struct sim_plan *pl)
+/* C05, last clause but one: what a pipe keeps for later comes out once its
+ * output takes data again, the loop runs and time passes. Judged only on
+ * histories in which nothing may legitimately drop or keep a buffer. */
+static void drain(void)
 {
-    plan = pl;
-    type = (int)((uint64_t)plan->cfg[CFG_TYPE] % NTYPES);
+    bool complete_env = ((uint64_t)plan->cfg[CFG_PROVIDE] & 31) == 31;
+    if (!(types[type].flags & F_COMPLETE) || complete_tainted || any_refusal || fault_fired || provider_failed ||
+        !complete_env || cur_out == NULL || seq > MAXSEQ || ut_fatal || ut_error)
+        return;
+    for (int i = 0; i < NSINK; i++)
+        sink_let_go(&sinks[i]);
+    uint64_t missing = 0;
+    for (int round = 0; round < 600 && ut != NULL; round++) {
+        missing = 0;
+        for (uint64_t q = 0; q < seq; q++)
+            if (!sent_rec[q].arrived)
+                missing++;
+        if (!missing && (src_pump == NULL || upump_sim_active(src_pump)))
+            break;
+        upump_sim_mgr_set_budget(upump_mgr, 24);
+        upump_mgr_run(upump_mgr, NULL);
+        sim_advance(27000001);
+    }
+    if (ut == NULL || !checking())
+        return;
+    SIM_PROBE("sweep_drained_before_release");
+    if (missing) {
+        uint64_t first = 0;
+        while (first < seq && sent_rec[first].arrived)
+            first++;
+        sim_violation(V_INCOMPLETE, "%s: %" PRIu64 " of %" PRIu64 " buffer(s) never came out (first: buffer %" PRIu64 ", %u octets) although "
+                      "the output takes everything, the loop ran dry and %s", types[type].name, missing, seq, first,
+                      sent_rec[first].size, "the clock went far ahead");
+    } else if (src_pump != NULL && !upump_sim_active(src_pump))
+        sim_violation(V_SRC_BLOCKED, "%s: everything was delivered and the pump of the source is still blocked", types[type].name);
+}
+
+static bool run_once(void)
+{
     seq = 0;
     flow_def_accepted = false;
     memset(sent_rec, 0, sizeof(sent_rec));
@@ -648,7 +978,7 @@ static void run(const char *pr, const struct sim_plan *pl)
     if (setjmp(run_abort)) {
         sim_alloc_disarm();
         sim_mark_nontrivial();
-        return;
+        return false;
     }
     env_setup();
     struct upipe_mgr *mgr = types[type].mgr_alloc();
@@ -665,8 +995,12 @@ static void run(const char *pr, const struct sim_plan *pl)
         sinks[0].accepted = false;
         upipe_set_output(ut, &sinks[0].upipe);
         cur_out = &sinks[0].upipe;
-        for (int i = 0; i < plan->nops && checking(); i++)
+        for (int i = 0; i < plan->nops && checking(); i++) {
+            cur_op = i;
             do_op(&plan->ops[i]);
+        }
+        if (ut != NULL && checking() && plan->cfg[CFG_PROP] == 5)
+            drain();
         if (ut != NULL) {
             struct upipe *p = ut;
             ut = NULL;
@@ -693,6 +1027,76 @@ static void run(const char *pr, const struct sim_plan *pl)
     env_teardown();
     sim_mark_nontrivial();
     sim_sig_add(1, sim_mix((uint64_t)type, sim_mix(sinks[0].inputs, sim_mix(sinks[0].flow_defs, ut_events))));
+    return true;
+}
+
+static bool same_trace(int a, int b, unsigned *at)
+{
+    unsigned n = ntrace[a] < ntrace[b] ? ntrace[a] : ntrace[b];
+    for (unsigned i = 0; i < n; i++)
+        if (trace[a][i] != trace[b][i] || trace_what[a][i] != trace_what[b][i]) {
+            *at = i;
+            return false;
+        }
+    *at = n;
+    return ntrace[a] == ntrace[b];
+}
+static const char *trace_word(int m, unsigned at)
+{
+    static char buf[2][48];
+    static int flip;
+    if (at >= ntrace[m])
+        return "nothing more";
+    if (trace_what[m][at] == 'd')
+        return "a buffer to its output";
+    if (trace_what[m][at] == 'f')
+        return "a flow definition to its output";
+    flip ^= 1;
+    snprintf(buf[flip], sizeof(buf[flip]), "event %s", uprobe_event_str((int)trace[m][at]) ? uprobe_event_str((int)trace[m][at]) : "(local)");
+    return buf[flip];
+}
+
+static void run(const char *pr, const struct sim_plan *pl)
+{
+    plan = pl;
+    type = (int)((uint64_t)plan->cfg[CFG_TYPE] % NTYPES);
+    twin_run = plan->cfg[CFG_PROP] == 20 && ((uint64_t)plan->cfg[CFG_TWIN] & 1);
+    mode = MODE_PRIMARY;
+    memset(rejected, 0, sizeof(rejected));
+    memset(ntrace, 0, sizeof(ntrace));
+    uint64_t t0 = sim_now();
+    if (!run_once() || !twin_run || !checking() || fault_fired || provider_failed)
+        return;
+    bool anything = false;
+    for (int i = 0; i < plan->nops; i++)
+        if (rejected[i] || plan->ops[i].code == OP_GETTER || plan->ops[i].code == OP_OPTION)
+            anything = true;
+    if (!anything || ntrace[MODE_PRIMARY] > MAXTRACE)
+        return;
+    SIM_PROBE("sweep_twin_executed");
+    mode = MODE_TWIN;
+    sim_set_now(t0);
+    bool ok = run_once();
+    mode = MODE_PRIMARY;
+    unsigned at = 0;
+    if (!ok || !checking() || ntrace[MODE_TWIN] > MAXTRACE || same_trace(MODE_PRIMARY, MODE_TWIN, &at))
+        return;
+    /* which of the two clauses? once more, the rejected setters kept */
+    mode = MODE_TWIN_KEEP_REJECTED;
+    sim_set_now(t0);
+    ok = run_once();
+    mode = MODE_PRIMARY;
+    unsigned at2 = 0;
+    if (!ok || !checking())
+        return;
+    if (!same_trace(MODE_PRIMARY, MODE_TWIN_KEEP_REJECTED, &at2))
+        sim_violation(V_TWIN_GETTER, "%s: the same history without its getter calls behaves differently: step %u of what the pipe "
+                      "does is %s, without the getters it is %s", types[type].name, at2, trace_word(MODE_PRIMARY, at2),
+                      trace_word(MODE_TWIN_KEEP_REJECTED, at2));
+    else
+        sim_violation(V_TWIN_SETTER, "%s: the same history without the setter calls the pipe rejected behaves differently: step %u "
+                      "of what the pipe does is %s, without the rejected calls it is %s", types[type].name, at,
+                      trace_word(MODE_PRIMARY, at), trace_word(MODE_TWIN, at));
 }
 
 static void gen(const char *pr, struct sim_rng *r, struct sim_plan *p)
@@ -707,25 +1111,48 @@ static void gen(const char *pr, struct sim_rng *r, struct sim_plan *p)
     int first = (int)sim_rng_below(r, NDEFS);
     if (sim_rng_chance(r, 7, 8))
         for (int k = 0; k < 3; k++)
-            sim_plan_add(p, 0, OP_FLOW_DEF, (first + k * 3) % NDEFS, sim_rng_below(r, 16), 0, 0, 0, 0);
+            sim_plan_add(p, 0, OP_FLOW_DEF, (first + k * 3) % NDEFS, sim_rng_below(r, 64), 0, 0, 0, 0);
     if (sim_rng_chance(r, 1, 2))
         sim_plan_add(p, 0, OP_ATTACH, 3, 0, 0, 0, 0, 0);
     /* pipes that only do something once configured */
     for (int k = 0; k < 3; k++)
         if (sim_rng_chance(r, 1, 2))
             sim_plan_add(p, 0, OP_OPTION, k, 1 + sim_rng_below(r, 7), 0, 0, 0, 0);
+    /* C05: half of the histories contain nothing that may legitimately drop
+     * or keep a buffer, so that the completeness clause gets judged */
+    if (p->cfg[CFG_PROP] == 20 && sim_rng_chance(r, 2, 3)) {
+        p->cfg[CFG_TWIN] = 1;
+        p->cfg[CFG_FAULTS] = 0;
+        p->cfg[CFG_PROVIDE] = 31;
+    }
+    bool clean = p->cfg[CFG_PROP] == 5 && sim_rng_chance(r, 1, 2);
+    if (clean) {
+        p->cfg[CFG_FAULTS] = 0;
+        p->cfg[CFG_PROVIDE] = 31;
+    }
     for (int i = 0; i < n; i++) {
         uint32_t c = sim_rng_below(r, 100);
         int64_t f = p->cfg[CFG_FAULTS] && sim_rng_chance(r, 1, 5) ? 1 + sim_rng_below(r, 5) : 0;
-        if (c < 40) sim_plan_add(p, 0, OP_INPUT, sim_rng_below(r, 200), sim_rng_below(r, 512), sim_rng_below(r, 64), sim_rng_below(r, 4), 0, f);
-        else if (c < 52) sim_plan_add(p, 0, OP_FLOW_DEF, sim_rng_below(r, NDEFS), sim_rng_below(r, 16), 0, 0, 0, f);
+        if (clean) {
+            if (c < 55) sim_plan_add(p, 0, OP_INPUT, sim_rng_below(r, 200), sim_rng_below(r, 512), sim_rng_below(r, 64), sim_rng_below(r, 4), 0, 0);
+            else if (c < 70) sim_plan_add(p, 0, OP_RUN, sim_rng_below(r, 16), 0, 0, 0, 0, 0);
+            else if (c < 80) sim_plan_add(p, 0, OP_ADVANCE, sim_rng_below(r, 27000000), 0, 0, 0, 0, 0);
+            else if (c < 88) sim_plan_add(p, 0, OP_OPTION, sim_rng_below(r, 3), sim_rng_below(r, 8), 0, 0, 0, 0);
+            else sim_plan_add(p, 0, OP_SINK_BLOCK, sim_rng_below(r, NSINK), sim_rng_chance(r, 2, 3), 0, 0, 0, 0);
+            continue;
+        }
+        if (p->cfg[CFG_PROP] == 20 && c >= 30 && c < 40) sim_plan_add(p, 0, c < 35 ? OP_GETTER : OP_OPTION, sim_rng_below(r, 3), sim_rng_below(r, 8), 0, 0, 0, 0);
+        else if (c < 40) sim_plan_add(p, 0, OP_INPUT, sim_rng_below(r, 200), sim_rng_below(r, 512), sim_rng_below(r, 64), sim_rng_below(r, 4), 0, f);
+        else if (c < 52) sim_plan_add(p, 0, OP_FLOW_DEF, sim_rng_below(r, NDEFS), sim_rng_below(r, 64), 0, 0, 0, f);
         else if (c < 64) sim_plan_add(p, 0, OP_RUN, sim_rng_below(r, 16), 0, 0, 0, 0, 0);
         else if (c < 72) sim_plan_add(p, 0, OP_ADVANCE, sim_rng_below(r, 27000000), 0, 0, 0, 0, 0);
         else if (c < 77) sim_plan_add(p, 0, OP_FLUSH, 0, 0, 0, 0, 0, 0);
         else if (c < 86) sim_plan_add(p, 0, OP_SET_OUTPUT, sim_rng_below(r, 3), 0, 0, 0, 0, 0);
         else if (c < 92) sim_plan_add(p, 0, OP_SINK_MODE, sim_rng_below(r, NSINK), sim_rng_below(r, 2), 0, 0, 0, 0);
         else if (c < 95) sim_plan_add(p, 0, OP_ATTACH, sim_rng_below(r, 4), 0, 0, 0, 0, 0);
-        else if (c < 98) sim_plan_add(p, 0, OP_OPTION, sim_rng_below(r, 3), sim_rng_below(r, 8), 0, 0, 0, 0);
+        else if (c < 97) sim_plan_add(p, 0, OP_OPTION, sim_rng_below(r, 3), sim_rng_below(r, 8), 0, 0, 0, 0);
+        else if (c < 99 && p->cfg[CFG_PROP] != 5) sim_plan_add(p, 0, OP_RELEASE, 0, 0, 0, 0, 0, 0);
+        else if (c < 99) sim_plan_add(p, 0, OP_SINK_BLOCK, sim_rng_below(r, NSINK), sim_rng_chance(r, 2, 3), 0, 0, 0, 0);
         else sim_plan_add(p, 0, OP_RELEASE, 0, 0, 0, 0, 0, 0);
     }
 }
